@@ -399,6 +399,10 @@ def crash_signature(exc: BaseException, repo_root: str = str(env.REPO)) -> str:
             lines = [line for line in lines if not line.startswith("File ")]
         if lines:
             head = normalize_message(lines[0])
+    if not head and inner is not None and inner.line:
+        # a bare assert / exception without a message: the source line tells the
+        # sites of one function apart
+        head = normalize_message("at: " + inner.line.strip())
     key = f"{cls}@{where}"
     if head:
         key += f"|{head}"
